@@ -441,6 +441,21 @@ class NullANSIContext:
 
 ANSI_CONTEXT_STACK: Dict[Writer, List[ANSIContext]] = defaultdict(list)
 
+_COLORAMA_INITIALIZED: bool = False
+
+
+def _init_colorama():
+    """Initializes colorama once per process.
+
+    Every call to :func:`colorama.init` wraps :attr:`sys.stdout` and :attr:`sys.stderr` again, on top of the
+    wrappers installed by the previous call.
+
+    """
+    global _COLORAMA_INITIALIZED
+    if not _COLORAMA_INITIALIZED:
+        colorama.init()
+        _COLORAMA_INITIALIZED = True
+
 
 class Printer(StatusWriter, RawWriter):
     """An ANSI color and status printer."""
@@ -479,7 +494,7 @@ class Printer(StatusWriter, RawWriter):
         self._ansi_color = None
         self.ansi_color = ansi_color
         if self.ansi_color:
-            colorama.init()
+            _init_colorama()
         self._strikethrough = False
         self._plusthrough = False
         if options is not None:
